@@ -230,8 +230,15 @@ func (g *Generator) generateFlattenFieldMarshal(gf *protogen.GeneratedFile, info
 	gf.P("// Flatten field: ", field.Desc.Name())
 	gf.P("if x.", goName, " != nil {")
 	gf.P(`delete(raw, "`, jsonName, `")`)
-	gf.P("// Use json.Marshal to invoke child's MarshalJSON (annotation composability)")
-	gf.P("childData, childErr := json.Marshal(x.", goName, ")")
+	gf.P("// Use the child's own MarshalJSON when it has one (annotation composability),")
+	gf.P("// otherwise its proto3 JSON form (encoding/json would use the Go struct tags)")
+	gf.P("var childData []byte")
+	gf.P("var childErr error")
+	gf.P("if childMarshaler, ok := interface{}(x.", goName, ").(json.Marshaler); ok {")
+	gf.P("childData, childErr = childMarshaler.MarshalJSON()")
+	gf.P("} else {")
+	gf.P("childData, childErr = protojson.Marshal(x.", goName, ")")
+	gf.P("}")
 	gf.P("if childErr != nil {")
 	gf.P("return nil, childErr")
 	gf.P("}")
@@ -333,8 +340,14 @@ func (g *Generator) generateFlattenFieldUnmarshal(gf *protogen.GeneratedFile, in
 	gf.P("return childErr")
 	gf.P("}")
 	gf.P("child", goName, " = &", childTypeName, "{}")
-	gf.P("// Use json.Unmarshal to invoke child's UnmarshalJSON (annotation composability)")
-	gf.P("if childErr = json.Unmarshal(childData, child", goName, "); childErr != nil {")
+	gf.P("// Use the child's own UnmarshalJSON when it has one (annotation composability),")
+	gf.P("// otherwise decode its proto3 JSON form")
+	gf.P("if childUnmarshaler, ok := interface{}(child", goName, ").(json.Unmarshaler); ok {")
+	gf.P("childErr = childUnmarshaler.UnmarshalJSON(childData)")
+	gf.P("} else {")
+	gf.P("childErr = protojson.Unmarshal(childData, child", goName, ")")
+	gf.P("}")
+	gf.P("if childErr != nil {")
 	gf.P("return childErr")
 	gf.P("}")
 	gf.P("}")
